@@ -75,6 +75,48 @@ pub fn check(c: &Case) -> Verdict {
     if let Some(d) = first_diff(&base, &asy) {
         return Verdict::fail(format!("slice vs async(cuts {:?}, pend {:?}): {} | cfg={} | slice: {} | async: {}", cuts, c.pend, d, cfg_show(c.cfg), show_recs(&base), show_recs(&asy)));
     }
+    // the decoder the reader ends up with (sniffed signature / declaration) is part of what it tells
+    // about the document: the same for every source
+    if data.iter().any(|b| *b == 0 || *b >= 0x80) || data.starts_with(b"<?xml") {
+        let bound = call_bound(data.len());
+        let a = {
+            let mut r = Reader::from_reader(&data[..]);
+            apply_cfg(r.config_mut(), c.cfg);
+            for _ in 0..bound {
+                if !matches!(r.read_event(), Ok(e) if e != Event::Eof) {
+                    break;
+                }
+            }
+            format!("{:?}", r.decoder())
+        };
+        let b = {
+            let mut r = Reader::from_reader(ChunkedBufRead::new(data, cuts.clone()));
+            apply_cfg(r.config_mut(), c.cfg);
+            let mut buf = Vec::new();
+            for _ in 0..bound {
+                buf.clear();
+                if !matches!(r.read_event_into(&mut buf), Ok(e) if e != Event::Eof) {
+                    break;
+                }
+            }
+            format!("{:?}", r.decoder())
+        };
+        let d = {
+            let mut r = Reader::from_reader(ChunkedAsync::new(data, cuts.clone(), c.pend.clone()));
+            apply_cfg(r.config_mut(), c.cfg);
+            let mut buf = Vec::new();
+            for _ in 0..bound {
+                buf.clear();
+                if !matches!(block_on(r.read_event_into_async(&mut buf)), Ok(e) if e != Event::Eof) {
+                    break;
+                }
+            }
+            format!("{:?}", r.decoder())
+        };
+        if a != b || a != d {
+            return Verdict::fail(format!("decoder after the run: slice {}, buffered(cuts {:?}) {}, async {} | cfg={} | input {:?}", a, cuts, b, d, cfg_show(c.cfg), B::show(data)));
+        }
+    }
     // classification: where do the cuts fall?
     let toks = refxml::lex(data);
     let mut v = Verdict::pass(false);
